@@ -66,11 +66,11 @@ impl HybridImpressionInfo {
     }
 
     /// ## Errors
-    /// If deserialization fails.
-    /// ## Panics
-    /// If not enough delimiters are found in the input bytes.
+    /// If deserialization fails, i.e. `bytes` is not exactly one byte long.
     pub fn from_bytes(bytes: &[u8]) -> Result<Self, InvalidHybridReportError> {
-        let key_id = bytes[0];
+        let &[key_id] = bytes else {
+            return Err(InvalidHybridReportError::Length(bytes.len(), 1));
+        };
         Ok(Self { key_id })
     }
 }
